@@ -68,6 +68,7 @@ func checkC06(c *Ctx, r *Report) {
 	runEMAKE(c, r, reach, "the decode entry points")
 	runEDIV(c, r, reach, "the decode entry points")
 	runETableIdx(c, r, reach, "the decode entry points", 1)
+	runECONSTIDX(c, r, reach, roots, "the decode entry points", 1)
 	checkSquareGuard(c, r)
 	checkCodabarIndexPair(c, r)
 	// the frozen E-DROP rows of the Data Matrix decoder rest on its version table: decide that here as well
